@@ -135,6 +135,14 @@ def shortfall (o : Bounds) (tb fb : Rat) (r : Bounds) : List Rat :=
   [rel (r.st - max (o.st - tb) 0) tb, rel (r.lo - max (o.lo - fb) 0) fb,
    rel (o.en + tb - r.en) tb, rel (min (o.hi + fb) MAXF - r.hi) fb]
 
+/-- `shortfall` beyond the monitor's floating-point slack (`bufferPostTol tol` holds iff all four are 0) -/
+def shortfallTol (tol : Rat) (o : Bounds) (tb fb : Rat) (r : Bounds) : List Rat :=
+  let rel (d b : Rat) : Rat := if d ≤ 0 then 0 else if b = 0 then d else d / b
+  [rel (r.st - max (o.st - tb) 0 - slack tol (max (o.st - tb) 0)) tb,
+   rel (r.lo - max (o.lo - fb) 0 - slack tol (max (o.lo - fb) 0)) fb,
+   rel (o.en + tb - slack tol (o.en + tb) - r.en) tb,
+   rel (min (o.hi + fb) MAXF - slack tol (min (o.hi + fb) MAXF) - r.hi) fb]
+
 /-! ### the shapely pipeline `buffer_shapely_geometry`, on point sets
 
     factor      = [1 / tb if tb > 0 else 1e9, 1 / fb if fb > 0 else 1e9]
@@ -223,5 +231,84 @@ def withinBuffersB (ρ tb fb : Rat) (p c : Pt) : Bool :=
     of the scaled input: `c + ρ·d` for the direction table `dirs` (unit vectors) -/
 def discProbes (ρ : Rat) (dirs : List Pt) (c : Pt) : List Pt :=
   dirs.map (fun d => (c.1 + ρ * d.1, c.2 + ρ * d.2))
+
+/-! ### where the outline of the buffer is a polygonal round cap
+
+  GEOS draws the unit buffer of the scaled geometry with mitre joins at the vertices of lines and
+  rings (they reach the full distance along both axes), circles around isolated points whose
+  vertices sit exactly on the axis directions, and polygonal round caps (32-gons, oriented along the
+  line) at the two ends of an *open* line: only there can a side of the bounds fall short of the
+  buffer by more than offset-curve noise (known finding C11-round-caps). -/
+
+/-- the two ends of an open line (none for a closed one) -/
+def openEnds (pts : List Pt) : List Pt :=
+  match pts.head?, pts.getLast? with
+  | some a, some b => if a = b then [] else [a, b]
+  | _, _ => []
+
+/-- the ends of the open lines of a geometry -/
+def lineEnds : Geom → List Pt
+  | .lineString pts => openEnds pts
+  | .multiLineString ls => (ls.map openEnds).flatten
+  | _ => []
+
+/-- per side of the bounds `b` (start time, low frequency, end time, high frequency): no end of an
+    open line attains that side's extreme or comes within `μ` buffers of it (`μ = 1/100` in the
+    check: GEOS simplifies its input by 1 % of the distance, so an end that close to the extreme
+    can put its cap there) -- the extreme is then attained at vertices drawn with mitre joins or
+    axis-aligned circles only -/
+def offCap (g : Geom) (b : Bounds) (tb fb μ : Rat) : List Bool :=
+  [!(lineEnds g).any (fun e => decide (e.1 ≤ b.st + μ * tb)), !(lineEnds g).any (fun e => decide (e.2 ≤ b.lo + μ * fb)),
+   !(lineEnds g).any (fun e => decide (b.en - μ * tb ≤ e.1)), !(lineEnds g).any (fun e => decide (b.hi - μ * fb ≤ e.2))]
+
+/-! ### binding of the arguments of a call (positional / keyword / omitted)
+
+  `buffer_geometry(geometry, time_buffer=0, freq_buffer=0, **kwargs)`: a caller may pass the two
+  buffers by position, by keyword (in any order), mixed, or leave them out.  `Sig` is the list of
+  the parameters after `geometry` that can be bound by position, with their defaults, as
+  `inspect.signature` reports it (regenerated from the source on every run). -/
+
+abbrev Sig := List (String × Rat)
+
+/-- Python's binding of positional values `pos` and keyword values `kw` to the parameters `sig`:
+    `none` = `TypeError` (too many positionals, a parameter given twice); a keyword that names no
+    parameter goes to `**kwargs` and binds nothing here -/
+def bindArgs : Sig → List Rat → List (String × Rat) → Option (List (String × Rat))
+  | [], [], _ => some []
+  | [], _ :: _, _ => none
+  | (n, _) :: sig, v :: pos, kw =>
+      if (kw.lookup n).isSome then none
+      else (bindArgs sig pos kw).map (fun r => (n, v) :: r)
+  | (n, d) :: sig, [], kw =>
+      (bindArgs sig [] kw).map (fun r => (n, (kw.lookup n).getD d) :: r)
+
+/-- the (time buffer, frequency buffer) a call of `buffer_geometry` ends up with -/
+def boundBuffers (sig : Sig) (pos : List Rat) (kw : List (String × Rat)) : Option (Rat × Rat) :=
+  match bindArgs sig pos kw with
+  | some r => match r.lookup "time_buffer", r.lookup "freq_buffer" with
+    | some a, some b => some (a, b)
+    | _, _ => none
+  | none => none
+
+/-- the signature the property module expects -/
+def bufferSig : Sig := [("time_buffer", 0), ("freq_buffer", 0)]
+
+
+/-! ### histories: consecutive calls in one process
+
+  The code keeps no state between calls, so the model of a session is the list of the models of
+  its calls.  A call may carry extra options for `shapely.buffer` (`opts`, opaque to the model):
+  they select the buffer function of *that* call (`lib opts`) and nothing else. -/
+
+structure Call where
+  g : Geom
+  tb : Rat
+  fb : Rat
+  opts : List (String × String) := []
+
+/-- what a sequence of `buffer_geometry` calls returns, call by call -/
+def runHistory (lib : List (String × String) → Geom → Rat → Rat → Option Geom) : List Call → List (Option Geom)
+  | [] => []
+  | c :: cs => bufferGeometry (lib c.opts) c.g c.tb c.fb :: runHistory lib cs
 
 end SE.Buf
